@@ -1,6 +1,9 @@
 package checks
 
 import (
+	"encoding/json"
+	"fmt"
+	"os"
 	"runtime"
 	"sync"
 
@@ -45,6 +48,13 @@ func runCrash(c *evid.Ctx, id string, cfg crashCfg) {
 		p.ExhaustiveMax = 9
 		p.PointStride = 1
 	}
+	if id == "C02" {
+		p.RetryPrefix = true
+	}
+	if c.Replay != "" {
+		replayCrash(c, p)
+		return
+	}
 	eng := &crashsim.Engine{C: c, P: p}
 	w := crashsim.Profiles[cfg.profile]
 	jobs := make(chan int)
@@ -69,4 +79,36 @@ func runCrash(c *evid.Ctx, id string, cfg crashCfg) {
 	wg.Wait()
 	c.Extra("behaviour_calibrated", crashsim.BehaviourUsed())
 	c.Extra("params", p)
+}
+
+// replayCrash re-runs the single case stored in a replay file.
+func replayCrash(c *evid.Ctx, p crashsim.Params) {
+	b, err := os.ReadFile(c.Replay)
+	if err != nil {
+		fmt.Println("HARNESS-ERROR cannot read replay file:", err)
+		os.Exit(2)
+	}
+	var rf struct {
+		Case struct {
+			Workload *crashsim.Workload `json:"workload"`
+			Crash1   *struct{ Call, Variant string } `json:"crash1"`
+			Crash2   *struct{ Call, Variant string } `json:"crash2"`
+		} `json:"case"`
+	}
+	if err := json.Unmarshal(b, &rf); err != nil || rf.Case.Workload == nil {
+		fmt.Println("HARNESS-ERROR replay file has no crashsim case:", err)
+		os.Exit(2)
+	}
+	if rf.Case.Crash1 != nil {
+		p.Only = append(p.Only, crashsim.OnlySel{Call: rf.Case.Crash1.Call, Variant: rf.Case.Crash1.Variant})
+		if rf.Case.Crash2 != nil {
+			p.Only = append(p.Only, crashsim.OnlySel{Call: rf.Case.Crash2.Call, Variant: rf.Case.Crash2.Variant})
+		}
+	}
+	p.Workers = 1
+	eng := &crashsim.Engine{C: c, P: p}
+	c.Sample(map[string]any{"replay": c.Replay})
+	eng.RunWorkload(rf.Case.Workload)
+	c.Distinct(c.DistinctKey(), "replay-a")
+	c.Distinct(c.DistinctKey(), "replay-b")
 }
